@@ -145,7 +145,7 @@ def fresh(spec, timeout=300):
 
 # ------------------------------------------------------------------ building the steps of a case
 
-_FORMS = [dict(), dict(tpl_form="shared"), dict(sub_form="graph"), dict(tpl_form="rule"), dict(sub_form="syngraph", enum=True),
+_FORMS = [dict(), dict(sub_form="graph0"), dict(tpl_form="shared"), dict(sub_form="graph"), dict(tpl_form="rule"), dict(sub_form="syngraph", enum=True),
           dict(tpl_form="shared", sub_form="sharedgraph"), dict(ctor="from_smiles"), dict(tpl_form="rsmi"), dict(enum=True, tpl_form="shared"),
           dict(sub_form="graph0")]
 # embed_pre_filter=True is NOT result-neutral (documented guard: it empties the result when the product of the per-node
